@@ -243,7 +243,9 @@ def run_robust(hexe, lines, meta, wd, tag, nranks=1, safe='0'):
     never twice for the same case).  -> (result lines for lines[:n], n, crashed or None, restarts)"""
     results, pos, restarts, last_cid, crashed = [], 0, 0, None, None
     while pos < len(lines):
-        rc, res, err = run_harness(hexe, lines[pos:], wd, '%s_%d' % (tag, restarts), nranks=nranks, safe=safe)
+        # the alarm of the harness turns a deadlock into a result; sized to the script (normal speed is > 3000 lines/s)
+        tmo = 300 + (len(lines) - pos) // 400
+        rc, res, err = run_harness(hexe, lines[pos:], wd, '%s_%d' % (tag, restarts), nranks=nranks, safe=safe, timeout=tmo)
         done = [x for x in res if x and x != 'TIMEOUT']
         if rc == 0 and len(done) >= len(lines) - pos:
             results += done[:len(lines) - pos]
